@@ -19,6 +19,23 @@ type httpState struct {
 	attempts   []httpAttempt
 	failures   int
 	maxFail    int
+	allowHang  bool
+}
+
+func stringsHasSuffix(s, suf string) bool { return len(s) >= len(suf) && s[len(s)-len(suf):] == suf }
+
+func httpResponse(fr *frame, code int) value {
+	t := pkgType("net/http", "Response")
+	st := zero(t).(structure)
+	st[fieldIndex(t, "StatusCode")] = mkI(code)
+	st[fieldIndex(t, "Status")] = mkStr(fmt.Sprintf("%d", code))
+	// Body: io.NopCloser(strings.NewReader(""))
+	rt := pkgType("strings", "Reader")
+	rd := value(zero(rt))
+	body := callPkgFunc(fr, "io", "NopCloser", []value{iface{t: types.NewPointer(rt), v: &rd}})
+	st[fieldIndex(t, "Body")] = body
+	cell := value(st)
+	return tuple{&cell, nilError()}
 }
 
 func (e *Engine) http() *httpState {
@@ -70,6 +87,7 @@ func init() {
 		t := pkgType("net/http", "Request")
 		st := zero(t).(structure)
 		st[fieldIndex(t, "Method")] = args[0]
+		st[fieldIndex(t, "Host")] = args[1] // the URL text (only used by the model of Client.Do)
 		ht := t.Underlying().(*types.Struct).Field(fieldIndex(t, "Header")).Type()
 		st[fieldIndex(t, "Header")] = newMap(ht.Underlying().(*types.Map))
 		cell := value(st)
@@ -79,10 +97,36 @@ func init() {
 	reg("(net/http.Header).Set", func(fr *frame, args []value) value { return nil })
 	reg("(*net/http.Client).Do", func(fr *frame, args []value) value {
 		h := E.http()
+		// only POSTs of metrics are modelled with faults; other requests (schema / aggregation config) succeed
+		if rq, ok := args[1].(*value); ok && rq != nil {
+			rt := pkgType("net/http", "Request")
+			if u, ok := (*rq).(structure)[fieldIndex(rt, "Host")].(Str); ok {
+				if us, conc := u.concrete(); conc && us != "" && !stringsHasSuffix(us, "/metrics") {
+					return httpResponse(fr, 200)
+				}
+			}
+		}
 		outcome := 0
 		if h.failures < h.maxFail {
-			outcome = E.choose(4)
+			n := 4
+			if h.allowHang {
+				n = 5
+			}
+			outcome = E.choose(n)
 			E.choices = append(E.choices, outcome)
+		}
+		if outcome == 4 {
+			// the peer sends (part of) a response and then stalls: the exchange only ends if the client has an
+			// overall deadline (http.Client.Timeout); without one the caller is stuck for good
+			h.failures++
+			h.attempts = append(h.attempts, httpAttempt{g: fr.g.id, batch: h.lastBatch[fr.g.id], outcome: 2})
+			ct := pkgType("net/http", "Client")
+			cl := (*args[0].(*value)).(structure)
+			to := cl[fieldIndex(ct, "Timeout")].(*Term)
+			if to.IsConst() && to.Int64() > 0 {
+				return tuple{(*value)(nil), mkError("Post: context deadline exceeded (Client.Timeout exceeded while awaiting the response) (verif http model)")}
+			}
+			E.blockUntil(fr.g, "HTTP exchange stalled by the peer and the client has no overall timeout", func() bool { return false })
 		}
 		if outcome != 0 {
 			h.failures++
@@ -91,23 +135,13 @@ func init() {
 		if outcome == 2 {
 			return tuple{(*value)(nil), mkError("Post: connection reset by peer (verif http model)")}
 		}
-		t := pkgType("net/http", "Response")
-		st := zero(t).(structure)
 		code := 200
 		if outcome == 1 {
 			code = 503
 		} else if outcome == 3 {
 			code = 400
 		}
-		st[fieldIndex(t, "StatusCode")] = mkI(code)
-		st[fieldIndex(t, "Status")] = mkStr(fmt.Sprintf("%d", code))
-		// Body: io.NopCloser(strings.NewReader(""))
-		rt := pkgType("strings", "Reader")
-		rd := value(zero(rt))
-		body := callPkgFunc(fr, "io", "NopCloser", []value{iface{t: types.NewPointer(rt), v: &rd}})
-		st[fieldIndex(t, "Body")] = body
-		cell := value(st)
-		return tuple{&cell, nilError()}
+		return httpResponse(fr, code)
 	})
 	reg("encoding/json.Unmarshal", func(fr *frame, args []value) value { return nilError() })
 	reg("(*github.com/jpillora/backoff.Backoff).Duration", func(fr *frame, args []value) value { return ConstBV(64, 1000000) })
@@ -132,6 +166,10 @@ func init() {
 	}
 	verifFuncs["verifHTTPAttempts"] = func(fr *frame, a []value) value { return mkI(len(E.http().attempts)) }
 	verifFuncs["verifHTTPFailures"] = func(fr *frame, a []value) value { return mkI(E.http().failures) }
+	verifFuncs["verifHTTPAllowStall"] = func(fr *frame, a []value) value {
+		E.http().allowHang = a[0].(*Term).IsTrue()
+		return nil
+	}
 	verifFuncs["verifHTTPMaxFailures"] = func(fr *frame, a []value) value {
 		E.http().maxFail = int(concInt(a[0], true))
 		return nil
